@@ -81,7 +81,10 @@ def case_strategy(draw: Any) -> Dict[str, Any]:
         "sequential": draw(st.integers(0, 3)) == 0,
         # a further request the client gives up on: its head is cut short and the client
         # half-closes (it keeps reading) - an aborted message
-        "tail": draw(st.sampled_from([None, None, None, "head_cut"])),
+        # (head_cut), or its head is complete and its body is not: cut short by the half-close
+        # (body_cut) or broken by an invalid chunk-size line (bad_chunk)
+        "tail": draw(st.sampled_from([None, None, None, None, "head_cut", "body_cut",
+                                      "bad_chunk"])),
         "cfg": {"keep_alive_max_requests": draw(st.sampled_from([1, 2, 3, 1000, 1000, 1000])),
                 "max_app_queue_size": draw(st.sampled_from([1, 2, 10, 10])),
                 "h11_pass_raw_headers": draw(st.booleans())},
@@ -233,11 +236,19 @@ def model(case: Dict[str, Any], actual_served: int = 0) -> Dict[str, Any]:
 
 
 TAIL = b"GET /tail HTTP/1.1\r\nHost: example.com\r\nX-Cut: sho"
+TAILS = {
+    "head_cut": TAIL,
+    "body_cut": b"POST /tail HTTP/1.1\r\nHost: example.com\r\nContent-Length: 50\r\n\r\n0123456789",
+    "bad_chunk": (b"POST /tail HTTP/1.1\r\nHost: example.com\r\nTransfer-Encoding: chunked\r\n\r\n"
+                  b"5\r\nhello\r\nZZ\r\nworld\r\n0\r\n\r\n"),
+}
+# the application of the aborted request waits for its body (so the answer is the server's own)
+TAIL_PROGRAM = [["recv_all"], ["respond", 200, [["x-req", "tail"]], ["late"]]]
 
 
 async def scenario(env: Any, case: Dict[str, Any]) -> Any:
     conn = env.connect()
-    tail = TAIL if case.get("tail") == "head_cut" else b""
+    tail = TAILS.get(case.get("tail") or "", b"")
     if case.get("sequential"):
         for i, r in enumerate(case["requests"]):
             if conn.server_gone:
@@ -280,7 +291,8 @@ def judge(case: Dict[str, Any], obs: Any) -> Dict[str, Any]:
     if dead:
         raise Violation("app_queue_deadlock", dead, backend=be)
     reqs = case["requests"]
-    insts = obs.instances
+    insts = [i for i in obs.instances if i.scope.get("path") != "/tail"]
+    tail_insts = [i for i in obs.instances if i.scope.get("path") == "/tail"]
     methods = [r["method"] for r in reqs]
     data = conn.received()
     resps, leftover, err = parse_responses(data, methods + ["GET"], conn.server_gone)
@@ -306,6 +318,9 @@ def judge(case: Dict[str, Any], obs: Any) -> Dict[str, Any]:
                 raise Violation("close_not_announced", f"answer to the aborted message: "
                                 f"{tail_resp.headers}; closed={conn.server_gone}", backend=be,
                                 reason="aborted message")
+            if len(tail_insts) != (0 if case["tail"] == "head_cut" else 1):
+                raise Violation("instance_count", f"{len(tail_insts)} instances for the aborted "
+                                f"message ({case['tail']})", backend=be)
         elif tail_resp is not None and m["reason"] != "early response":
             raise Violation("served_after_close", "bytes behind the last request of the "
                             f"connection were answered ({tail_resp.status})", backend=be,
@@ -393,7 +408,8 @@ def judge(case: Dict[str, Any], obs: Any) -> Dict[str, Any]:
                                 reason=m["reason"])
     else:
         # persisted through the whole pipeline: must still be open when the last response ended
-        if conn.server_gone and conn.server_eof_at <= t_done:
+        # (a malformed message pipelined right behind is answered and closes in the same instant)
+        if conn.server_gone and conn.server_eof_at <= t_done and case.get("tail") != "bad_chunk":
             raise Violation("closed_although_reusable", f"closed at {conn.server_eof_at}",
                             backend=be)
     return {"served": served, "model": m}
@@ -403,6 +419,7 @@ def run_case(case: Dict[str, Any]) -> CaseInfo:
     cfg = dict(case["cfg"])
     cfg["keep_alive_timeout"] = T_BIG
     programs = {f"/r{i}": app_program(i, r) for i, r in enumerate(case["requests"])}
+    programs["/tail"] = TAIL_PROGRAM
 
     async def sc(env: Any) -> Any:
         return await scenario(env, case)
